@@ -392,7 +392,9 @@ impl<'a> Emitter<'a> {
                 let f = cur_fn.expect("pt marker outside fn");
                 out.push(format!("{}{}.interfere(); // [inv@{}.{}]", indent, f.poolstr, f.spec.path, key));
                 if self.vacuity && self.vacuity_all {
-                    out.push(format!("{}if vx_nondet() {{ assert(false); }} // [vac {}.{}]", indent, f.spec.path, key));
+                    // `attr deadprobe KEY`: a point the contracts prove unreachable (e.g. the error arm of a `?` on a callee that never fails)
+                    let dead = f.spec.attrs.iter().any(|a| a.strip_prefix("deadprobe ").map(|k| k.trim() == key).unwrap_or(false));
+                    out.push(format!("{}if vx_nondet() {{ assert(false); }} // [{} {}.{}]", indent, if dead { "vacdead" } else { "vac" }, f.spec.path, key));
                 }
                 continue;
             }
